@@ -52,6 +52,11 @@ def histories(tier="quick"):
         for first in FIRSTS:
             for op in OPS + (LINK_OPS if pn.startswith("linked") else []):
                 yield [pn, first, op]
+    # the same histories with the process's temporary directory on the file system of the project tree (the default one
+    # usually is on another file system: a temporary file made there cannot be renamed into the tree, only copied)
+    for pn in PRE:
+        for op in OPS + (LINK_OPS if pn.startswith("linked") else []):
+            yield [pn, None, op, "tmpdir-on-tree-fs"]
     # a write larger than one buffer: bytes reach the file while the writing code is still in the middle of its work
     # (thorough: every byte boundary; quick: the effect boundaries, three cuts per piece and the interrupt model)
     yield ["a1", None, BIG]
@@ -122,7 +127,13 @@ def run_history(C, h, rec, only_state=None):
     from spil import WriteToPaths, SpilException
     c0 = C["names"][0]
     root = C["prs"][c0].root()
-    pn, first, op = h
+    pn, first, op = h[:3]
+    import tempfile
+    tempfile.tempdir = None
+    if len(h) > 3 and h[3] == "tmpdir-on-tree-fs":
+        tempfile.tempdir = root.rstrip("/") + "_tmp"
+        os.makedirs(tempfile.tempdir, exist_ok=True)
+    rec.extra.setdefault("tmpdir_on_other_fs", os.stat(tempfile.gettempdir()).st_dev != os.stat(root).st_dev if os.path.exists(root) else None)
     build_pre(C, pn)
     if first:
         r = c15.apply_real(C, first)
